@@ -44,7 +44,7 @@ func (n Tree[T]) String() string {
 // Clone will return a copy of this tree, with a new set of nodes. The values
 // are copied as-is, so no pointers inside your value type gets a deep clone.
 func (n *Tree[T]) Clone() Tree[T] {
-	var clone Tree[T]
+	clone := Tree[T]{compare: n.compare}
 	n.WalkPreOrder(clone.Add)
 	return clone
 }
